@@ -6,7 +6,7 @@ From Coq Require Import Ascii String List NArith Arith Bool.
 Import ListNotations.
 Require Import Laze.model.Base Laze.model.Env Laze.model.Ninja Laze.model.Ctx Laze.model.Generate
         Laze.model.Load Laze.model.Cache.
-Require Import Laze.proofs.CacheFacts Laze.proofs.CacheNarrow Laze.proofs.CacheInstance Laze.proofs.LoadFrame Laze.proofs.LoadNames Laze.proofs.CacheOrder.
+Require Import Laze.proofs.CacheFacts Laze.proofs.CacheNarrow Laze.proofs.CacheInstance Laze.proofs.LoadFrame Laze.proofs.LoadNames Laze.proofs.CacheOrder Laze.proofs.CacheClosed.
 Open Scope list_scope.
 
 Section C08.
@@ -120,7 +120,21 @@ Section C08.
   Theorem C08_load_frame : forall t1 t2 ts, cload_ts bd store t1 = Ok ts -> cts_valid ts t2 = true ->
     cload_ts bd store t2 = Ok ts /\ load (ytree_of store t2) project_file bd = load (ytree_of store t1) project_file bd.
   Proof. exact (load_frame_holds bd store). Qed.
+
+  (* C08 meets C01 and C02: what a run hands to main — regenerated or served from the cache, after ANY history of
+     runs, kills, edits and damaged cache files in the build directory — consists of builds that are the resolver's
+     result on the current tree: closed under hard dependencies, free of conflicts and of disabled modules *)
+  Theorem C08_reported_builds_closed : forall t0 ops a k w' o,
+    crun H EV bd store a k (fold_left (cstep H EV bd store) ops (fresh vtree cargs tstate gen_result t0)) = (w', o) ->
+    forall r, o = OHit r \/ o = ORegen r -> forall info, In info (gr_builds r) -> build_closed info.
+  Proof. exact (reported_builds_closed H EV bd store). Qed.
+  Theorem C08_reported_builds_exclusive : forall t0 ops a k w' o,
+    crun H EV bd store a k (fold_left (cstep H EV bd store) ops (fresh vtree cargs tstate gen_result t0)) = (w', o) ->
+    forall r, o = OHit r \/ o = ORegen r -> forall info, In info (gr_builds r) -> build_exclusive (ca_disable a) info.
+  Proof. exact (reported_builds_exclusive H EV bd store). Qed.
 End C08.
+Print Assumptions C08_reported_builds_closed.
+Print Assumptions C08_reported_builds_exclusive.
 Print Assumptions C08_reachable_coherent.
 Print Assumptions C08_hit_is_fresh.
 Print Assumptions C08_hit_builds_ordered.
